@@ -50,6 +50,8 @@ theorem aheadLoop_succ_cases (fuel : Nat) (bs : Bytes) (fin : EndState) :
       · exact Or.inl ⟨rfl, fun _ => ⟨h, rest, hh⟩⟩
       · rename_i hver
         simp only [Bool.not_eq_true] at hver
+        have hf : framingOf h.headers = .ok fr := by
+          rw [← framingFor_of_not_high _ _ hver]; exact hf
         simp only []
         split
         · rename_i hk
